@@ -125,15 +125,21 @@ class Repo:
                     self.renames_undone.append(f"module-level name {a} -> {b}")
             self._undo_function_renames(ref)
             if ref and not os.environ.get("SA_NO_INLINE"):
-                from .inline import undo_extractions
+                from .inline import undo_extractions, undo_constant_extractions
                 from .normalise import normalise as _norm
                 before = len(self.renames_undone)
+                undo_constant_extractions({m.name: m.tree for m in self.modules.values()}, specials.get("__modnames__", {}), self.renames_undone)
                 undo_extractions({m.name: m.tree for m in self.modules.values()}, set(ref), self.renames_undone)
                 if len(self.renames_undone) > before:
                     for m in self.modules.values():      # an inlined body may complete a guard-clause / return-temporary pattern
                         m.tree = _norm(m.tree)
+            self._renorm = False
             for m in self.modules.values():
                 self._undo_renames(m, ref, undo_pure_renames)
+            if self._renorm:
+                from .normalise import normalise as _norm3
+                for m in self.modules.values():
+                    m.tree = _norm3(m.tree)
         for m in self.modules.values():
             _number(m.tree)
         for m in self.modules.values():
@@ -207,6 +213,13 @@ class Repo:
                         mp = recover_local_renames(st, ref[q]["sigs"])
                         if mp:
                             self.renames_undone.append(f"{q} (with other edits): " + ", ".join(f"{a}->{b}" for a, b in sorted(mp.items())))
+                        if not os.environ.get("SA_NO_INLINE"):
+                            from .inline import undo_new_locals
+                            from .normalise import normalise as _norm2
+                            n0 = len(self.renames_undone)
+                            undo_new_locals(st, ref[q]["locals"], self.renames_undone, q)
+                            if len(self.renames_undone) > n0:
+                                self._renorm = True
                 elif isinstance(st, ast.ClassDef):
                     rec(st.body, f"{prefix}.{st.name}")
                 elif isinstance(st, (ast.If, ast.Try, ast.With, ast.For, ast.While)):
